@@ -154,7 +154,10 @@ if ROUND == 9:
               "C16Q": "the index base as a numpy integer scalar, also of a narrow type",
               "C18Q": "cp_als problems with one mode held fixed (optdims) under relabelling",
               "C20Q": "densities of index spaces with 2^60 .. 2^64 cells (sptenrand_pow2 in Generators.tla)"}
-for d in sorted(SRC.glob("C??[CDEFGHIJKLMNOPQ]")):
+if ROUND == 10:
+    MISSED = {"C13S": "sparse data whose nonzeros are stored reversed / row-sorted / shuffled (stored order as a presentation of the samplers' and solvers' data)",
+              "C15S": "values relabelled to 1 + v * 2^-30 for issymmetric (entries that differ, differ by a hair: the test is exact, not a closeness test)"}
+for d in sorted(SRC.glob("C??[CDEFGHIJKLMNOPQRSTUVWXYZ]")):
     rj = d / "result.json"
     if not rj.exists():
         print(d.name, "no result"); continue
